@@ -29,6 +29,9 @@ struct json_pointer_get_result {
 int json_pointer_get_internal(struct json_object *obj, const char *path,
                               struct json_pointer_get_result *res);
 
+/* Unescape a reference token in place ("~1" => '/', then "~0" => '~'). */
+void json_pointer_unescape_token(char *token);
+
 typedef int(*json_pointer_array_set_cb)(json_object *parent, size_t idx,
                                         json_object *value, void *priv);
 
